@@ -8,7 +8,7 @@ MANIFEST = dict(
    note="Trusted: Lean kernel; axioms propext/Classical.choice/Quot.sound only; the Go harness and comparer; Go float64 operators and math.Trunc being IEEE-754. Float MultipleOf (documented epsilon rule) is modelled exactly on dyadic floats (Model/NumFloat.lean) and held to the theorems of Proofs/C16Float.lean (never rejects an exact multiple; zero/NaN accept nothing), not to exact divisibility. cmpInts/multipleOfInts/cmpFloats are tied by text fingerprint and generated cases; the translator harness/numgen is trusted.",
    design="DESIGN.md §5 C16")
 
-MODULES = ["Gozod.Proofs.C16", "Gozod.Proofs.C16Dispatch", "Gozod.Proofs.C16Float"]
+MODULES = ["Gozod.Proofs.C16", "Gozod.Proofs.C16Dispatch", "Gozod.Proofs.C16Float", "Gozod.Proofs.C16Arms"]
 THEOREMS = [
     "Gozod.C16.c16_cmp", "Gozod.C16.c16_int_cmp", "Gozod.C16.c16_sign", "Gozod.C16.c16_float_cmp",
     "Gozod.C16.c16_nan_left", "Gozod.C16.c16_nan_right", "Gozod.C16.c16_neg_zero", "Gozod.C16.c16_zero_eq",
@@ -22,6 +22,9 @@ THEOREMS = [
     # the float branch of MultipleOf (documented epsilon rule, Model/NumFloat.lean)
     "Gozod.C16F.c16_float_multiple_complete", "Gozod.C16F.c16_float_multiple_zero", "Gozod.C16F.c16_float_multiple_nan",
     "Gozod.C16F.float_multiple_not_exact", "Gozod.C16F.float_multiple_inf_divisor", "Gozod.C16F.zero_lt_eps",
+    # cmpFloats / cmpInts / multipleOfInts: bodies translated clause by clause into Model/Arms.lean terms and interpreted
+    "Gozod.C16A.cmpFloats_table", "Gozod.C16A.cmpInts_table", "Gozod.C16A.multipleOfInts_table",
+    "Gozod.C16A.cmpInts_table_exact", "Gozod.C16A.multipleOfInts_table_exact",
 ]
 
 def key(op, impl, M, S):
@@ -29,11 +32,11 @@ def key(op, impl, M, S):
     how = C.op_comment(op).split(":")[0]
     if impl.startswith("panic"): return "panic:" + t[1]
     # c16 cmp <op> ka a kb b | c16 mul ka a kb b
-    if t[1] == "cmp":
+    if t[1] in ("cmp", "xcmp"):
         ka, a, kb, b = t[3], t[4], t[5], t[6]
     else:
         ka, a, kb, b = t[2], t[3], t[4], t[5]
-    fl = lambda k: "float" if k.startswith("f") else "int"
+    fl = lambda k: "float" if k.startswith("f") else ("ext" if k in ("nx", "cx", "big") else "int")
     big = ""
     if fl(ka) == "int" and fl(kb) == "int":
         big = ":above2^53" if max(abs(int(a)), abs(int(b))) > 2 ** 53 else ":small"
